@@ -79,14 +79,15 @@ func c04Streams(level int) []Stream {
 	return out
 }
 
-// c04Judge decodes the damaged file through a *bytes.Reader and, for the default read schedule, also
-// through buffered sources (bufio with the default and with a 37-byte buffer: Peek / Discard fast
+// c04Judge decodes the damaged file through a *bytes.Reader and, for the default read schedule (burst
+// mutations excepted), also through buffered sources (bufio with the default and with a 37-byte buffer: Peek / Discard fast
 // paths, fills that end off the 4-byte grid); a replay of the case repeats all of them.
 func c04Judge(r *core.Run, cs core.Case, s Stream, mutated []byte, site, desc string, mustErr bool, buf ...int) {
 	c04JudgeSrc(r, cs, s, mutated, site, desc, mustErr, 0, buf...)
-	if len(buf) == 0 || buf[0] == 0 {
+	if (len(buf) == 0 || buf[0] == 0) && !strings.HasPrefix(site, "xz burst") {
+		// (bursts - the bulk of the byte-level mutations - stay with the in-memory source: cost bound)
 		kinds := []int{2}
-		if strings.HasPrefix(site, "xz edit") || strings.HasPrefix(site, "xz sealed") {
+		if (strings.HasPrefix(site, "xz edit") || strings.HasPrefix(site, "xz sealed")) && !strings.Contains(site, "end of input") {
 			kinds = []int{2, 9} // field-level damage also with fills that end off the 4-byte grid
 		}
 		for _, sk := range kinds {
